@@ -556,6 +556,20 @@ namespace
     // target list defined once by "deftargets": the same request is then made at every target
     void do_query(const Value &s)
     {
+      if (s.HasMember("tsel"))      // one target of a named list, queried through the step's own handle
+        {
+          auto it = global_targets.find(s["tsel"][0].GetString());
+          if (it == global_targets.end()) throw HarnessError(std::string("unknown target list ") + s["tsel"][0].GetString());
+          Document td;
+          td.Parse<rapidjson::kParseFullPrecisionFlag>(it->second.c_str());
+          const rapidjson::SizeType i = static_cast<rapidjson::SizeType>(s["tsel"][1].GetInt() - 1);
+          if (i >= td.Size()) throw HarnessError("target index out of range");
+          Value t(td[i], td.GetAllocator());
+          t.RemoveMember("h");
+          t.AddMember("h", Value(s["h"].GetInt()), td.GetAllocator());
+          do_query_one(s, t);
+          return;
+        }
       if (!s.HasMember("targets")) { do_query_one(s, s); return; }
       Document td;
       const Value *list = &s["targets"];
@@ -739,6 +753,13 @@ namespace
           ++stats.steps;
           if (cur_op == "defdoc") global_docs[s["name"].GetString()] = write_doc(s["wb"], owner, s["name"].GetString());
           else if (cur_op == "deftargets") global_targets[s["name"].GetString()] = dump(s["targets"]);
+          else if (cur_op == "defsave")        // a reference value computed elsewhere (another process)
+            {
+              std::vector<double> v;
+              for (auto &x : s["v"].GetArray()) v.push_back(x.GetDouble());
+              global_saves[s["name"].GetString()] = v;
+            }
+          else if (cur_op == "defpath") global_docs[s["name"].GetString()] = s["path"].GetString();
           else if (cur_op == "create") do_create(s, owner);
           else if (cur_op == "mkdir") { mkdir(s["path"].GetString(), 0777); }
           else if (cur_op == "exists")
